@@ -432,6 +432,9 @@ impl LogReader {
 
         // A buffer consolidating all of the fragments retrieved from the log file.
         let mut data_buffer: Vec<u8> = vec![];
+        // True while `data_buffer` holds the leading fragments of a record whose last fragment has
+        // not been seen yet.
+        let mut in_fragmented_record = false;
 
         loop {
             let maybe_record = self.read_physical_record();
@@ -442,18 +445,37 @@ impl LogReader {
                         _ => return Err(physical_read_err),
                     }
                 }
+
+                // A corrupted fragment invalidates the record it belongs to. Drop what has been
+                // collected so far and resynchronize on the start of the next record.
+                in_fragmented_record = false;
+                data_buffer.clear();
             } else {
                 let record = maybe_record.unwrap();
-                data_buffer.extend(record.data);
 
                 match record.block_type {
                     BlockType::Full => {
-                        return Ok((data_buffer, false));
+                        // Any pending fragments belong to a record that was never completed
+                        // (e.g. the writer died before writing the last fragment).
+                        return Ok((record.data, false));
                     }
-                    BlockType::First => {}
-                    BlockType::Middle => {}
+                    BlockType::First => {
+                        // Same as above, an unfinished record is dropped
+                        data_buffer = record.data;
+                        in_fragmented_record = true;
+                    }
+                    BlockType::Middle => {
+                        // A middle fragment without a start is skipped
+                        if in_fragmented_record {
+                            data_buffer.extend(record.data);
+                        }
+                    }
                     BlockType::Last => {
-                        return Ok((data_buffer, false));
+                        // A last fragment without a start is skipped
+                        if in_fragmented_record {
+                            data_buffer.extend(record.data);
+                            return Ok((data_buffer, false));
+                        }
                     }
                 }
             }
@@ -545,12 +567,15 @@ impl LogReader {
             )));
         }
 
-        // Parse the payload
-        let serialized_block = [header_buffer.to_vec(), data_buffer].concat();
-        let block_record: BlockRecord = BlockRecord::try_from(&serialized_block)?;
+        // The fragment was consumed from the file whether or not it parses, so account for it
+        // before parsing to stay aligned with the block structure of the file
         self.current_cursor_position += header_buffer.len() + data_bytes_read;
         self.current_block_offset =
             (self.current_block_offset + data_bytes_read) % BLOCK_SIZE_BYTES;
+
+        // Parse the payload
+        let serialized_block = [header_buffer.to_vec(), data_buffer].concat();
+        let block_record: BlockRecord = BlockRecord::try_from(&serialized_block)?;
 
         Ok(block_record)
     }
